@@ -34,6 +34,7 @@ class PintsSeam(object):
     def __init__(self, n_draws):
         self.n_draws = n_draws
         self.calls = []
+        self.x0s = []
 
     def __enter__(self):
         seam = self
@@ -42,9 +43,15 @@ class PintsSeam(object):
         self._oc_count = [0]
 
         def mc_run(ctrl):
-            x0 = np.asarray(ctrl._x0 if hasattr(ctrl, '_x0') else [])
+            # (single-chain samplers hold one starting point each, multi-chain
+            # samplers hold all of them)
+            if ctrl._single_chain:
+                x0 = np.array([smp._x0 for smp in ctrl._samplers])
+            else:
+                x0 = np.array(ctrl._samplers[0]._x0)
             n_chains = ctrl._n_chains
             n_par = ctrl._n_parameters
+            seam.x0s.append(np.array(x0, dtype=float))
             seam.calls.append(('mcmc', n_chains, n_par))
             c = np.arange(n_chains)[:, None, None]
             d = np.arange(seam.n_draws)[None, :, None]
@@ -57,6 +64,8 @@ class PintsSeam(object):
             n_par = len(ctrl._x0) if hasattr(ctrl, '_x0') else \
                 ctrl._function.n_parameters()
             seam.calls.append(('opt', run, n_par))
+            seam.x0s.append(np.array(getattr(ctrl._optimiser, '_x0', []),
+                                     dtype=float))
             return 1000.0 * (run + 1) + np.arange(n_par), -(run + 1.0)
         pints.MCMCController.run = mc_run
         pints.OptimisationController.run = oc_run
@@ -76,13 +85,16 @@ def uniform_prior(n):
 def build_posterior(case):
     if case['kind'] == 'filter':
         # population-level parameters FIRST, then simulated individuals, then noise
-        y = np.array([[[1.0, 2.0]], [[1.5, 2.5]]])
+        n_obs = case.get('n_obs', 1)
+        y = np.array([[[1.0, 2.0], [0.7, 1.9]][:n_obs],
+                      [[1.5, 2.5], [1.1, 2.2]][:n_obs]])
         pop = popbuild.build(case['fspec'], None)
         nt = rp.n_top(case['fspec'], case['n_sim'])
         return chi.PopulationFilterLogPosterior(
-            chi.GaussianFilter(y), [0.5, 1.5], ToyModel(2, 1), pop,
-            uniform_prior(nt + (0 if case['sigma_fixed'] else 1)),
-            sigma=[0.2] if case['sigma_fixed'] else None,
+            chi.GaussianFilter(y), [0.5, 1.5],
+            ToyModel(len(rp.special(case['fspec'])), n_obs), pop,
+            uniform_prior(nt + (0 if case['sigma_fixed'] else n_obs)),
+            sigma=[0.2, 0.3][:n_obs] if case['sigma_fixed'] else None,
             n_samples=case['n_sim']), None
     if case['kind'] == 'individual':
         ll = chi.LogLikelihood(
@@ -99,6 +111,27 @@ def build_posterior(case):
 
 # ------------------------------------------------------------------ initial points
 
+def sample_by_parts(spec, pop, top, n_ids, rng, cov):
+    """Draws of a composed population model taken sub-model by sub-model (each with
+    its own slice of the parameters and its own covariate columns, continuing one
+    generator) -- independent of the composed model's own bookkeeping."""
+    if spec['kind'] != 'Comp' or any(p_['kind'] in ('Comp', 'Red')
+                                     for p_ in spec['parts']):
+        kw = {'covariates': cov} if cov is not None else {}
+        return np.asarray(pop.sample(top, n_samples=n_ids, seed=rng, **kw))
+    cols = []
+    t0 = c0 = 0
+    for part in spec['parts']:
+        sub = popbuild.build(part, n_ids)
+        nt, ncv = rp.n_top(part, n_ids), rp.n_cov(part)
+        kw_p = {'covariates': cov[:, c0:c0 + ncv]} if ncv else {}
+        cols.append(np.asarray(sub.sample(top[t0:t0 + nt], n_samples=n_ids,
+                                          seed=rng, **kw_p)).reshape(n_ids, -1))
+        t0 += nt
+        c0 += ncv
+    return np.hstack(cols)
+
+
 def w_initial(case):
     viol = []
     try:
@@ -111,6 +144,8 @@ def w_initial(case):
     ns, seed = case['n_samples'], case['seed']
     lab = 'individual' if hcase is None else popbuild.label(hcase['spec']) + \
         ' n_ids=%d' % hcase['n_ids']
+    if case['kind'] == 'filter':
+        return _initial_filter(case, post)
     try:
         x = np.asarray(post.sample_initial_parameters(n_samples=ns, seed=seed))
     except Exception as e:
@@ -162,8 +197,7 @@ def w_initial(case):
     rng = np.random.default_rng(seed + 1)
     hmask = [k is None for k in rp.special(spec)]
     for s in range(ns):
-        kw = {'covariates': cov} if cov is not None else {}
-        draw = np.asarray(pop.sample(x[s, nb:], n_samples=n_ids, seed=rng, **kw))
+        draw = sample_by_parts(spec, pop, x[s, nb:], n_ids, rng, cov)
         e_bottom = draw[:, hmask].flatten()
         if not np.array_equal(x[s, :nb], e_bottom):
             viol.append({'sub': 'bottom', 'message': 'individual-level entries are '
@@ -187,6 +221,73 @@ def w_initial(case):
     return {'transitions': 5, 'outcome': tol.rnd(x, 8), 'violations': viol}
 
 
+def _initial_filter(case, post):
+    """Filter posterior: [population-level | simulated individuals | noise]."""
+    viol = []
+    spec, n_sim = case['fspec'], case['n_sim']
+    ns, seed = case['n_samples'], case['seed']
+    lab = 'filter ' + popbuild.label(spec) + ' n_sim=%d' % n_sim
+    n = post.n_parameters()
+    x = np.asarray(post.sample_initial_parameters(n_samples=ns, seed=seed))
+    if x.shape != (ns, n):
+        return {'transitions': 2, 'outcome': 'shape', 'violations': [{
+            'sub': 'shape', 'message': 'initial points do not have the posterior\'s '
+            'dimension (%s)' % lab, 'expected': [ns, n], 'observed': list(x.shape),
+            'behaviour': 'init_shape'}]}
+    x2 = np.asarray(post.sample_initial_parameters(n_samples=ns, seed=seed))
+    if not np.array_equal(x, x2):
+        viol.append({'sub': 'repro', 'message': 'initial points are not '
+                     'reproducible from the seed (%s)' % lab, 'expected': x,
+                     'observed': x2, 'behaviour': 'init_repro'})
+    n_pop = rp.n_top(spec, n_sim)
+    n_top = n_pop + (0 if case['sigma_fixed'] else 1)
+    hmask = [k is None for k in rp.special(spec)]
+    n_hd = sum(hmask)
+    np.random.seed(seed)
+    e_top = uniform_prior(n_top).sample(ns)
+    if not np.array_equal(x[:, :n_top], e_top):
+        viol.append({'sub': 'top', 'message': 'population-level entries are not the '
+                     'prior\'s draws under the seed (%s)' % lab, 'expected': e_top,
+                     'observed': x[:, :n_top], 'behaviour': 'init_top'})
+    pop = popbuild.build(spec, n_sim)
+    rng = np.random.default_rng(seed + 1)
+    end_b = n_top + n_sim * n_hd
+    for s_ in range(ns):
+        draw = sample_by_parts(spec, pop, x[s_, :n_pop], n_sim, rng, None)
+        e_bottom = draw[:, hmask].flatten()
+        if not np.array_equal(x[s_, n_top:end_b], e_bottom):
+            viol.append({'sub': 'bottom', 'message': 'entries of the simulated '
+                         'individuals are not the population model\'s draws '
+                         '(hierarchical dimensions only) at the sampled population '
+                         'values (%s)' % lab, 'expected': e_bottom,
+                         'observed': x[s_, n_top:end_b], 'behaviour': 'init_bottom'})
+            break
+        obs = np.zeros((n_sim, len(hmask)))
+        obs[:, hmask] = x[s_, n_top:end_b].reshape(n_sim, n_hd)
+        psi = np.real(rp.psi_of(spec, x[s_, :n_pop], obs, None))
+        obs[:, [not h for h in hmask]] = psi[:, [not h for h in hmask]]
+        lp = float(np.real(rp.logpop(spec, x[s_, :n_pop], obs, None)))
+        if not np.isfinite(lp):
+            viol.append({'sub': 'finite', 'message': 'population contribution at an '
+                         'initial point is not finite (%s)' % lab,
+                         'expected': 'finite', 'observed': lp,
+                         'behaviour': 'init_finite'})
+            break
+    if not viol:
+        e_eps = rng.normal(loc=0, scale=1, size=(ns, n - end_b))
+        if not np.array_equal(x[:, end_b:], e_eps):
+            viol.append({'sub': 'eps', 'message': 'noise entries are not standard '
+                         'normal draws of the generator (%s)' % lab,
+                         'expected': e_eps, 'observed': x[:, end_b:],
+                         'behaviour': 'init_eps'})
+        if not np.isfinite(post(x[0])):
+            viol.append({'sub': 'finite_post', 'message': 'log-posterior at an '
+                         'initial point is not finite (%s)' % lab,
+                         'expected': 'finite', 'observed': post(x[0]),
+                         'behaviour': 'init_finite'})
+    return {'transitions': 5, 'outcome': tol.rnd(x, 8), 'violations': viol}
+
+
 # ------------------------------------------------------------------ formatting
 
 def w_format(case):
@@ -207,6 +308,34 @@ def w_format(case):
         oc.set_n_runs(n_runs)
         oc.set_parallel_evaluation(False)
         table = oc.run(n_max_iterations=3)
+    if case['kind'] == 'filter':
+        # the published names / IDs are the documented layout: population level,
+        # simulated individuals, then noise per (individual, observable, time)
+        n_obs, n_sim = case.get('n_obs', 1), case['n_sim']
+        dims = ['p%d' % i for i in range(len(rp.special(case['fspec'])))]
+        e_names = rp._names(case['fspec'], n_sim, dims)
+        e_ids = [None] * len(e_names)
+        if not case['sigma_fixed']:
+            e_names += ['Sigma o%d' % j for j in range(n_obs)]
+            e_ids += [None] * n_obs
+        for s_ in range(n_sim):
+            for d_, kind_ in zip(dims, rp.special(case['fspec'])):
+                if kind_ is None:
+                    e_names.append(d_)
+                    e_ids.append('Sim. %d' % (s_ + 1))
+        for s_ in range(n_sim):
+            for j in range(n_obs):
+                for t_ in range(2):
+                    e_names.append('o%d Epsilon time %d' % (j, t_ + 1))
+                    e_ids.append('Sim. %d' % (s_ + 1))
+        if names != e_names or list(post.get_id()) != e_ids:
+            viol.append({'sub': 'filter_layout', 'message': 'names / IDs published '
+                         'by the filter posterior are not the documented layout '
+                         '(%s, %d observables)' % (popbuild.label(case['fspec']),
+                                                   n_obs),
+                         'expected': [e_names, e_ids],
+                         'observed': [names, list(post.get_id())],
+                         'behaviour': 'filter_layout'})
     # --- dataset: every published name once, entries decode to raw positions
     if hcase is None and case['kind'] != 'filter':
         ids_u = post.get_id()
@@ -357,6 +486,59 @@ def _readback(case, post, hcase, ds, viol, lab, n_runs, n_draws):
                 return
 
 
+def w_ctrl_init(case):
+    """Histories of controller configuration calls: at every run the starting
+    points handed to pints are the posterior's seeded initial points for the number
+    of runs in force."""
+    viol = []
+    post, hcase = build_posterior(case)
+    ref_post, _ = build_posterior(case)
+    seed = case['seed']
+    cls = chi.SamplingController if case['ctrl'] == 'sampling' else \
+        chi.OptimisationController
+    n_runs = None
+    outcome = []
+    with PintsSeam(2) as seam:
+        c = cls(post, seed=seed)
+        n_runs = c._n_runs
+        for op in case['ops'] + ['run']:
+            if op.startswith('runs'):
+                n_runs = int(op[4:])
+                c.set_n_runs(n_runs)
+            elif op == 'par':
+                c.set_parallel_evaluation(False)
+            elif op == 'method':
+                if case['ctrl'] == 'sampling':
+                    c.set_sampler(pints.HaarioACMC)
+                else:
+                    c.set_optimiser(pints.XNES)
+            elif op == 'draw':
+                # the posterior is asked for other initial points in between
+                post.sample_initial_parameters(n_samples=3, seed=seed + 5)
+            elif op == 'run':
+                del seam.x0s[:]
+                seam._oc_count[0] = 0
+                if case['ctrl'] == 'sampling':
+                    c.run(n_iterations=2)
+                    got = seam.x0s[0] if seam.x0s else np.empty((0, 0))
+                else:
+                    c.run(n_max_iterations=2)
+                    got = np.array(seam.x0s)
+                want = np.asarray(ref_post.sample_initial_parameters(
+                    n_samples=n_runs, seed=seed))
+                outcome.append(tol.rnd(got, 8))
+                if got.shape != want.shape or not np.array_equal(got, want):
+                    viol.append({'sub': 'ctrl_init', 'message': 'starting points '
+                                 'handed to pints after %s are not the posterior\'s '
+                                 'initial points for seed %s and %d runs (%s, %s)'
+                                 % (case['ops'], seed, n_runs, case['ctrl'],
+                                    case['kind']), 'expected': want,
+                                 'observed': got, 'behaviour': 'ctrl_init'})
+                    break
+    return {'transitions': len(case['ops']) + 3, 'outcome': key_of(outcome),
+            'violations': viol}
+
+
 def w_param_map(case):
     """PosteriorPredictiveModel with a parameter map: every model parameter reads
     the dataset variable it is mapped to (unmapped ones the variable of their own
@@ -462,13 +644,12 @@ def w_opt_failures(case):
             'violations': viol}
 
 
-WORKERS = {'initial': w_initial, 'format': w_format, 'param_map': w_param_map,
+WORKERS = {'controller_init': w_ctrl_init, 'initial': w_initial, 'format': w_format, 'param_map': w_param_map,
            'opt_failures': w_opt_failures}
 
 
 def build(tier, seed):
-    kinds = ['G', 'Gnc', 'LNnc', 'TG', 'P', 'H', 'Cov(G)', 'Cov(P)'] \
-        if tier == 'quick' else hier.KINDS10
+    kinds = hier.KINDS10       # every class in both tiers
     max_ids = 2 if tier == 'quick' else 3
     init, fmt = [], []
     structs = hier.structures(3, kinds)
@@ -486,6 +667,17 @@ def build(tier, seed):
     for ns in (1, 2, 3):
         for sd in (0, 1, 2):
             init.append({'kind': 'individual', 'n_samples': ns, 'seed': sd})
+    # filter posteriors: every composition of two or three dimensions
+    fkinds = ['G', 'Gnc', 'LN', 'LNnc', 'TG', 'P', 'H']
+    for nd_ in (2, 3):
+        for i, spec in enumerate(hier.structures(nd_, fkinds)):
+            if nd_ == 3 and tier == 'quick' and not any(
+                    k is not None for k in rp.special(spec)):
+                continue
+            for sf in (True, False):
+                init.append({'kind': 'filter', 'fspec': spec, 'sigma_fixed': sf,
+                             'n_sim': 2 + i % 2, 'n_samples': 1 + (i + sf) % 2,
+                             'seed': (0, 1, 2)[i % 3]})
     fspecs = [rp.Comp([rp.G(1), rp.LN(1, False), rp.TG(1)]), rp.G(3),
               rp.Comp([rp.G(1), rp.P(1), rp.H(1)]),
               rp.Comp([rp.H(1), rp.LN(2)]),
@@ -504,17 +696,24 @@ def build(tier, seed):
                         continue
                     fmt.append({'kind': 'hier', 'hcase': hc, 'n_runs': n_runs,
                                 'n_draws': n_draws})
+    # more than nine individuals (labels do not sort like numbers)
+    for spec in fspecs[:3]:
+        hc = hier.make_case(spec, 11, seed,
+                            ids=[str(k) for k in (3, 10, 1, 11, 2, 5, 4, 7, 6, 9, 8)])
+        fmt.append({'kind': 'hier', 'hcase': hc, 'n_runs': 2, 'n_draws': 2})
     for n_runs in (1, 2, 3):
         for n_draws in (1, 2, 3):
             fmt.append({'kind': 'individual', 'id': 'x7', 'n_runs': n_runs,
                         'n_draws': n_draws})
     for fspec in (rp.Comp([rp.G(1), rp.P(1)]), rp.LN(2), rp.Comp([rp.H(1), rp.G(1)])):
         for sf in (True, False):
-            for n_sim in (2, 3):
+            for n_sim in (2, 3, 11):
                 for n_runs, n_draws in ((1, 2), (2, 2), (3, 1)):
-                    fmt.append({'kind': 'filter', 'fspec': fspec, 'sigma_fixed': sf,
-                                'n_sim': n_sim, 'n_runs': n_runs,
-                                'n_draws': n_draws})
+                    for n_obs in (1, 2):
+                        fmt.append({'kind': 'filter', 'fspec': fspec,
+                                    'sigma_fixed': sf, 'n_sim': n_sim,
+                                    'n_runs': n_runs, 'n_draws': n_draws,
+                                    'n_obs': n_obs})
     # parameter maps: every injective assignment of the three mechanistic names to
     # dataset variables (their own names included: swaps, shifts, cycles)
     pmaps = []
@@ -535,8 +734,29 @@ def build(tier, seed):
         for fails in itertools.product([False, True], repeat=n_runs):
             optf.append({'kind': 'individual', 'fails': list(fails)})
             optf.append({'kind': 'hier', 'hcase': hc2, 'fails': list(fails)})
+    ci = []
+    ci_ops = ['runs1', 'runs2', 'runs5', 'par', 'method', 'run', 'draw']
+    hc3 = hier.make_case(rp.Comp([rp.P(1), rp.G(1), rp.LN(1, False)]), 2, seed)
+    ci_posts = [{'kind': 'individual'}, {'kind': 'hier', 'hcase': hc3},
+                {'kind': 'filter', 'fspec': rp.Comp([rp.P(1), rp.LN(1)]),
+                 'sigma_fixed': False, 'n_sim': 2}]
+    for d_ in (0, 1, 2, 3):
+        for ops in itertools.product(ci_ops, repeat=d_):
+            for k_, pc in enumerate(ci_posts):
+                if d_ == 3 and k_ != (len(ci) % 3):
+                    continue
+                for ctrl in ('sampling', 'optimisation'):
+                    for sd in (0, 4):
+                        if d_ >= 2 and sd != (0, 4)[len(ops[0]) % 2]:
+                            continue
+                        c_ = dict(pc)
+                        c_.update({'ops': list(ops), 'ctrl': ctrl, 'seed': sd})
+                        ci.append(c_)
     return {
         'parts': [
+            Part('controller_init', ci, w_ctrl_init,
+                 'every history of <= 3 controller configuration calls / runs: '
+                 'starting points handed to pints = seeded initial points'),
             Part('param_map', pmaps, w_param_map,
                  'PosteriorPredictiveModel: every injective parameter map of three '
                  'model names into five dataset variables, both dictionary orders'),
